@@ -275,7 +275,7 @@ theorem C15_repeat_last_counterexample :
                        .map .none {} [(.str "a", .seq .none {} [c15Force 8, c15Int 9])]] with
       | .ok (.dict [(.str "a", .list [.scalar (.int 8), .scalar (.int 9)])]) => true
       | _ => false) = true := by
-  constructor <;> decide
+  constructor <;> decide +kernel
 
 
 /-! ### Permuting the keys of mappings -/
